@@ -72,8 +72,11 @@ def concrete_relation(model, variants):
         d2 = {k: x for k, x in dict(model.directives).items() if k != 'grammar'}
         res.append((f'{w}:directives', d1 == d2, [d1, d2]))
         if w == 'pretty':
-            p1 = model.pretty()
-            res.append(('pretty:fixpoint', v.pretty() == p1, [p1, v.pretty()]))
+            try:
+                p1, p2 = model.pretty(), v.pretty()
+                res.append(('pretty:fixpoint', p2 == p1, [p1, p2]))
+            except Exception as e:  # noqa: BLE001
+                res.append(('pretty:fixpoint', False, 'pretty() of the recompiled model raises ' + type(e).__name__ + ': ' + str(e)[:100]))
     return res
 
 
